@@ -1,9 +1,104 @@
 import RegexVerif.Sexp
+import RegexVerif.Model.Utf8
+import RegexVerif.Model.MatchBuilder
 
 namespace RegexVerif.Driver
 open RegexVerif Sexp
 
-/-- protocol lines with head `c08` (stub) -/
-def handleC08 (_args : List Sexp) : String := "(unimplemented)"
+namespace C08
+
+def pair? (e : Sexp) : Option (Int × Nat) :=
+  match e with
+  | .list [a, b] => match a.int?, b.nat? with
+    | some r, some w => some (r, w)
+    | _, _ => none
+  | _ => none
+
+def natPair? (e : Sexp) : Option (Nat × Nat) :=
+  match e with
+  | .list [a, b] => match a.nat?, b.nat? with
+    | some r, some w => some (r, w)
+    | _, _ => none
+  | _ => none
+
+def optNat (o : Option Nat) : Sexp := match o with | some n => ofNat n | none => ofInt (-1)
+
+def optPair (o : Option (Nat × Nat)) : Sexp :=
+  match o with
+  | some (a, b) => .list [ofNat a, ofNat b]
+  | none => .list [ofInt (-1), ofInt (-1)]
+
+/-- `(c08 map (segs (r w)…) (runes r…) (spans (i l)…))`: every table of the model, entry by entry -/
+def handleMap (rest : List Sexp) : String :=
+  let segs? := (lookup "segs" rest).bind (fun l => l.mapM pair?)
+  let runes? := (lookup "runes" rest).bind (fun l => l.mapM (·.int?))
+  let spans? := (lookup "spans" rest).bind (fun l => l.mapM natPair?)
+  match segs?, runes?, spans? with
+  | some segs, some rs, some spans =>
+    let n := segs.length
+    let idx := List.range (n + 1)
+    let total := Utf8.byteOffsetSpec segs n
+    let sbo := Utf8.stringByteOffsets segs
+    let mp := Utf8.newStringByteMapper segs
+    let btr := Utf8.bytesToRunesAndOffsets segs
+    let rr := Utf8.readRunes segs
+    let rbo := Utf8.runeByteOffsets rs
+    toString (mk "ok" [
+      mk "sbo" (idx.map (fun i => optNat (Utf8.offsetAt sbo i))),
+      mk "nsbm" (idx.map (fun i => ofNat (Utf8.mapIndex mp i))),
+      mk "btr" (idx.map (fun i => optNat (Utf8.offsetAt btr.2 i))),
+      mk "btrrunes" [ofInts btr.1],
+      mk "rr" [ofNats rr.2],
+      mk "rbo" ((List.range (rs.length + 1)).map (fun i => optNat (Utf8.offsetAt rbo i))),
+      mk "rlen" (rs.map (fun r => ofInt (Utf8.runeLen r))),
+      mk "rs" ((List.range (total + 1)).map (fun b => ofInt (Utf8.runeStart segs (b : Nat)))),
+      mk "spans" (spans.map (fun p => optPair (Utf8.byteRange sbo p.1 p.2))),
+      mk "rs2" ((List.range (total + 1)).map (fun b => ofInt (Utf8.runeStart segs (b : Nat)))),
+      mk "rspans" (spans.map (fun p => optPair (Utf8.byteRange rbo p.1 p.2)))])
+  | _, _, _ => "(bad-args)"
+
+open MatchBuilder in
+def op? (e : Sexp) : Option Op :=
+  match e with
+  | .list [.atom "cap", c, s, en] => match c.nat?, s.int?, en.int? with
+    | some c, some s, some en => some (.cap c s en)
+    | _, _, _ => none
+  | .list [.atom "tr", c, u, s, en] => match c.int?, u.nat?, s.int?, en.int? with
+    | some c, some u, some s, some en => some (.transfer c u s en)
+    | _, _, _, _ => none
+  | .list [.atom "un"] => some .uncap
+  | _ => none
+
+def pairS (p : Int × Int) : Sexp := .list [ofInt p.1, ofInt p.2]
+
+open MatchBuilder in
+/-- `(c08 build capcount (ops …))`: run the interpreter primitives, then `tidy`; report the arrays
+    before and after (live prefix of every slot), `Groups()` and the abstract view -/
+def handleBuild (rest : List Sexp) : String :=
+  match rest with
+  | capS :: more =>
+    match capS.nat?, (lookup "ops" more).bind (fun l => l.mapM op?) with
+    | some capcount, some ops =>
+      let r := run capcount ops
+      let pre := r.m
+      let post := tidy pre
+      let slots := List.range capcount
+      let live (b : Builder) : Sexp := .list (slots.map (fun c => ofInts ((arr b c).take (2 * cnt b c))))
+      toString (mk "ok" [
+        mk "abs" ((abs pre).map (fun st => .list (st.map pairS))),
+        mk "post" [ofNats post.matchcount, live post, ofBool post.balancing],
+        mk "cap0" [pairS (matchCapture post)],
+        mk "groups" ((groups post).map (fun g => .list [pairS g.1, .list (g.2.map pairS)]))])
+    | _, _ => "(bad-args)"
+  | _ => "(bad-args)"
+
+end C08
+
+/-- protocol lines with head `c08` -/
+def handleC08 (args : List Sexp) : String :=
+  match args with
+  | .atom "map" :: rest => C08.handleMap rest
+  | .atom "build" :: rest => C08.handleBuild rest
+  | _ => "(bad-op)"
 
 end RegexVerif.Driver
